@@ -99,6 +99,8 @@ class Engine:
 
     def run_harness(self, runner, scen, outdir, threads=16, budget_ms=30000, which="harness"):
         vh = os.path.join(self.root, which, "target", "release", "vh")
+        os.environ["VERIF_TIER"] = self.tier
+        os.environ["VERIF_SEED"] = str(self.seed)
         r = sh([vh, "run", runner, "--in", scen, "--out", outdir, "--threads", str(threads), "--budget-ms", str(budget_ms)])
         if r.returncode == 3:
             hang = open(os.path.join(outdir, "HANG.json")).read()
@@ -161,6 +163,8 @@ class Engine:
                 if ev == "reset":
                     s = e.get("s", {})
                     self.cov["scenario:%s/%s" % (s.get("framing", e.get("kind", "-")), s.get("faultKind", "-"))] += 1
+                elif ev == "charset":
+                    self.cov["charset:%s/%s/%s" % (e.get("ct"), e.get("op"), e.get("res"))] += 1
                 elif ev == "hostile":
                     self.cov["hostile:%s/%s" % (e.get("kind"), e.get("res"))] += 1
                 elif ev == "head":
@@ -267,7 +271,7 @@ class Engine:
             if key in seen:
                 continue
             seen.add(key)
-            sc = v.get("scenario") or self.scen_by_id.get(v["id"])
+            sc = v.get("scenario") or self.scen_by_id.get(v["id"]) or self.scen_by_id.get(v["id"].split("/")[0]) or self.scen_by_id.get(v["id"].split(":")[0])
             k = self.is_known(v, sc)
             if k:
                 known_hits.setdefault(k["id"], [k, 0])[1] += 1
